@@ -572,5 +572,10 @@ class HeadTransformer:
                 elems.extend([_ast.ConditionalLiteral(loc, _ast.Literal(loc, _ast.Sign.NoSign, head), cond) for head in heads])
 
             rules.append(_ast.Rule(loc, _ast.Disjunction(loc, elems), [saux, false]))
+            if len(elems) > 1:
+                # the grounder drops a disjunction as soon as one of its atoms
+                # is a fact; introduce each atom by a rule of its own as well
+                for elem in elems:
+                    rules.append(_ast.Rule(loc, _ast.Disjunction(loc, [elem]), [saux, false]))
 
         return aux, rules
